@@ -18,7 +18,7 @@ ASSUMPTIONS = ['the centroid is computed by the harness from the raw cells (floa
 
 
 def budget(tier):
-    return {'quick': 48, 'thorough': 800}[tier]
+    return {'quick': 160, 'thorough': 1600}[tier]
 
 
 @st.composite
